@@ -54,7 +54,53 @@ def load_table():
     return path, strings, entries
 
 
+def atom_order_wiring():
+    """<Atom as Ord>::cmp is str::cmp(deref(as_str(self)), deref(as_str(other))) - read off the
+    MIR of the current tree by symbolic execution (one straight-line path). Together with the
+    K round trip as_str(new_inlined(s)) == s this gives: atoms order by their texts' bytes."""
+    from .mirsmt import core, util
+    mir, _s, _c = util.get()
+    names = [n for n in mir.index if re.match(r"^atom_table::<impl at [^>]*>::cmp$", n)]
+    res = []
+    for n in names:
+        body = mir.body(n)
+        if "atom_table::Atom" not in body.header:
+            continue
+        paths = core.Executor(body, max_depth=60).run("bb0")
+        ok = bool(paths)
+        for p in paths:
+            if p.end != "return":
+                continue
+            r = p.env.get("_0")
+            good = False
+            if r and r[0] == "app" and r[1].endswith("<str as std::cmp::Ord>::cmp"):
+                def src(t):
+                    d = 0
+                    while t is not None and d < 8:
+                        d += 1
+                        if t[0] == "app" and t[1].endswith("Atom::as_str"):
+                            return t[2][0]
+                        if t[0] == "app":
+                            t = t[2][0] if t[2] else None
+                        elif t[0] == "ref":
+                            t = p.env.get(t[1])
+                        elif t[0] == "proj":
+                            t = t[1]
+                        else:
+                            return None
+                    return None
+                good = src(r[2][0]) == ("s", "_1") and src(r[2][1]) == ("s", "_2")
+            ok = ok and good
+        res.append(ok)
+    return bool(res) and all(res)
+
+
 def run():
+    try:
+        order_ok = atom_order_wiring()
+    except Exception as e:  # noqa
+        log("  atom order wiring: cannot analyse (%s)" % e)
+        return {"exit": EXIT_INCONCLUSIVE, "atom_order": "unreadable: %s" % e}
     try:
         path, strings, entries = load_table()
     except Exception as e:  # noqa
@@ -88,12 +134,13 @@ def run():
     lines.append("(pop)")
     r = smt.check("\n".join(lines) + "\n")
     ans = r["answers"]
-    ok = ans == ["unsat", "unsat"] and not bad_struct
-    log("  static atom table: %d entries (%d inline), queries %s, %.2fs" % (
-        len(entries), n_inline, ans, r["z3_s"]))
+    ok = ans == ["unsat", "unsat"] and not bad_struct and order_ok
+    log("  static atom table: %d entries (%d inline), queries %s, %.2fs; Atom::cmp = str::cmp on "
+        "as_str texts: %s" % (len(entries), n_inline, ans, r["z3_s"], order_ok))
     res = {
-        "evaluations": 2,
-        "distinct_nontrivial": 2 if ok else 0,
+        "evaluations": 3,
+        "distinct_nontrivial": (2 if ans == ["unsat", "unsat"] and not bad_struct else 0) + (1 if order_ok else 0),
+        "atom_order_wiring": order_ok,
         "samples": [{"query": "atom! table: index == inline_rule(key) for all %d keys" % len(entries),
                      "answer": ans[0] if ans else None},
                     {"query": "atom! table: indices pairwise distinct", "answer": ans[1] if ans and len(ans) > 1 else None}],
@@ -112,6 +159,7 @@ def run():
             for key, idx in bad_struct[:20]:
                 f.write("key %r has index %d but STRINGS disagrees\n" % (key, idx))
             f.write("answers: %s\n" % ans)
+            f.write("Atom::cmp compares as_str texts in order: %s\n" % order_ok)
         log("VIOLATION property=C21 replay=%s" % rp)
         res["exit"] = EXIT_VIOLATION
     return res
